@@ -157,7 +157,7 @@ Proof.
   destruct (length (zdigits k) <? 2); [|auto]. repeat split; [cbn; exact A|discriminate|cbn [dvalue]; exact V].
 Qed.
 Lemma nearest_zero ng e10 : nearest (Fin ng 0 e10) = PDy ng 0 0.
-Proof. unfold nearest. cbn [Z.of_N]. rewrite Z.mul_0_l. destruct (0 <=? e10)%Z; reflexivity. Qed.
+Proof. reflexivity. Qed.
 
 Definition e_text (q : Z) (ng : bool) (m e : Z) : str := if ng then "-" :: fmt_e_body q m e else fmt_e_body q m e.
 Lemma nocsp_app a b : nocsp (a ++ b) = nocsp a && nocsp b.
